@@ -7,6 +7,8 @@ function until every feasible decision sequence (feasibility = z3 on the path
 condition) has been explored.  ``explore`` finally asks z3 that the disjunction
 of the explored path conditions is valid, so nothing was skipped.
 """
+import time
+
 import z3
 
 _current = None
@@ -29,6 +31,7 @@ class _Run:
         for b in base:
             self.solver.add(b)
         self.queries = 0
+        self.solver_s = 0.0
 
     def decide(self, cond):
         """Return a Python bool for symbolic condition `cond` on this path."""
@@ -43,6 +46,7 @@ class _Run:
             taken = self.script[self.pos][0]
         else:
             self.queries += 2
+            _t0 = time.time()
             self.solver.push()
             self.solver.add(cond)
             can_t = str(self.solver.check()) != "unsat"
@@ -51,6 +55,7 @@ class _Run:
             self.solver.add(z3.Not(cond))
             can_f = str(self.solver.check()) != "unsat"
             self.solver.pop()
+            self.solver_s += time.time() - _t0
             if can_t and can_f:
                 self.script.append([True, True])
                 taken = True
@@ -96,6 +101,7 @@ def explore(fn, base=(), max_paths=100000, catch=(Exception,), check_cover=True)
     script = []
     paths = []
     queries = 0
+    solver_s = 0.0
     while True:
         run = _Run(script, base)
         prev = _current
@@ -108,6 +114,7 @@ def explore(fn, base=(), max_paths=100000, catch=(Exception,), check_cover=True)
         finally:
             _current = prev
         queries += run.queries
+        solver_s += run.solver_s
         paths.append(Path(run.pc[len(base):], res, exc, [d[0] for d in script[: run.pos]]))
         if len(paths) > max_paths:
             raise PathLimit(f"more than {max_paths} paths")
@@ -124,6 +131,8 @@ def explore(fn, base=(), max_paths=100000, catch=(Exception,), check_cover=True)
         for b in base:
             s.add(b)
         s.add(z3.Not(z3.Or(*[p.cond() for p in paths])))
+        _t0 = time.time()
         covered = str(s.check()) == "unsat"
+        solver_s += time.time() - _t0
         queries += 1
-    return paths, {"paths": len(paths), "queries": queries, "covered": covered}
+    return paths, {"paths": len(paths), "queries": queries, "covered": covered, "solver_s": solver_s}
